@@ -39,6 +39,26 @@ def InInterval (lo hi : DVal Int) (l : List (DVal Int)) : Prop :=
 /-- both ends of the interval occur in the sequence -/
 def ReachesBothEnds {β : Type} (lo hi : β) (l : List β) : Prop := lo ∈ l ∧ hi ∈ l
 
+/-- the bounds a history has requested at the moment of each of its draws (`q`: bounds at the start);
+computed from the operations alone -/
+def boundsInForce : List (Op Int) → Int × Int → List (Int × Int)
+  | [], _ => []
+  | .draw :: ops, q => q :: boundsInForce ops q
+  | .reset :: ops, q => boundsInForce ops q
+  | .setParam p :: ops, _ => boundsInForce ops (undecorate p.fst, undecorate p.snd)
+
+/-- every `param(p)` of the history satisfies the precondition `min ≤ max` -/
+def OpsValid : List (Op Int) → Prop
+  | [] => True
+  | .setParam p :: ops => undecorate p.fst ≤ undecorate p.snd ∧ OpsValid ops
+  | _ :: ops => OpsValid ops
+
+/-- pointwise: the lists have the same length and `vs[i]` lies in the closed interval `qs[i]` -/
+def AllWithin : List (DVal Int) → List (Int × Int) → Prop
+  | [], [] => True
+  | v :: vs, q :: qs => (q.1 ≤ undecorate v ∧ undecorate v ≤ q.2) ∧ AllWithin vs qs
+  | _, _ => False
+
 /-! ## instance 1: replay of a recorded `std::` run -/
 
 /-! `StdDist.draw` is polymorphic in the generator state (a distribution sees its generator only through
